@@ -153,3 +153,19 @@ def eci_boundary_calls(call, quick=True):
             calls.append(call('make', [('\xe4', None, 'utf-8'), 123, ('\xf6' + 'a' * k, None, 'iso-8859-15')], eci=True, error='L'))
             calls.append(call('make', ['\xe4', 123, '\xf6' + 'a' * k], encoding='utf-8', eci=True, version=(k + 30) // 16 + 1, error='L'))
     return calls
+
+
+def multipart_boundary_calls(call, quick=True):
+    """multi-part content of ONE mode whose first part ends on an incomplete group (so the parts stay separate segments, each with its
+    own indicators), swept over every total length that crosses the capacities of versions 1-4 / M2-M4"""
+    calls = []
+    for first, ch, top in (('1', '2', 135), ('12', '7', 135), ('A', 'B', 120), ('4', '0', 60)):
+        for k in range(1, top, 1 if not quick else 2):
+            calls.append(call('make', [first, ch * k], error='L', micro=False, boost_error=False))
+            if k % 6 == 1:
+                calls.append(call('make', [first, ch * k]))
+                calls.append(call('make', [first, ch * k, first], error='M', micro=False))
+    for k in (38, 39, 40, 41, 74, 75, 76, 77, 123, 124, 125, 126, 127):
+        for ver in (1, 2, 3):
+            calls.append(call('make', ['1', '2' * k], version=ver, error='L', boost_error=False))
+    return calls
